@@ -5,8 +5,8 @@ set -e
 cd "$(dirname "$0")"
 export CARGO_NET_OFFLINE=true
 python3 tools/translate_tables.py
-(cd coq && coq_makefile -f _CoqProject -o Makefile >/dev/null 2>&1 && timeout 3000 make -j16)
+(cd coq && coq_makefile -f _CoqProject -o Makefile >/dev/null 2>&1 && (timeout 3000 make -j16 -k || echo "setup: some Coq files failed to build; the checks that need them will report it"))
 mkdir -p .cache
 [ -f harness/Cargo.lock ] || cp /repo/Cargo.lock harness/Cargo.lock
-(cd harness && CARGO_TARGET_DIR=/verif/.cache/target RUSTFLAGS="--cfg device_driver_verif" timeout 3000 cargo build --offline --workspace)
+(cd harness && (CARGO_TARGET_DIR=/verif/.cache/target RUSTFLAGS="--cfg device_driver_verif" timeout 3000 cargo build --offline --workspace || echo "setup: some harness crates failed to build"))
 echo "setup done"
